@@ -592,6 +592,8 @@ def explain(ctx, case, h, clauses):
 def compare_predictions(ctx, case, h, exp, exp_found=None, drift=None, variant=None, rejected=""):
     """exp = the TLC case record of the repaired I-layer, exp_found = of the I-layer with the three switches off (code as found).
     The lists may follow either; anything else is model drift -- never a violation."""
+    if rejected:
+        return  # drift is a statement about executions that satisfy P
     drift = drift or ctx.drift
     exp_found = exp_found or exp
     variant = variant if variant is not None else {}
@@ -625,7 +627,7 @@ def compare_predictions(ctx, case, h, exp, exp_found=None, drift=None, variant=N
         elif wants[0] != wants[1]:
             variant.setdefault("FwdOmitToList", set()).add(set(los[0]["listed"]) == wants[0])
     lis = [r for r in raws if r["m"] == "li"]
-    if lis and lis[0]["rc"] == 0 and "list.inputs_cover" not in rejected:
+    if lis and lis[0]["rc"] == 0:
         got = set(lis[0]["listed"])
         cls = {"tplB": lambda p: p.startswith("src/nunavut/lang/%s/templates/" % o["lang"]) and p.endswith(".j2"),
                "tplU": lambda p: p.startswith("in/tpl/") and p.endswith(".j2"),
